@@ -68,6 +68,10 @@ typedef struct {
 static vf_errlog elog;
 static int g_shared_before;	/* run_once: earlier calibration, same kit */
 static double g_merr_nf, g_merr_tr;	/* run_once: measurement-error model */
+/* run_once: the model given per calibration frequency (NULL frequency
+   vector, g_merr_n values each) */
+static int g_merr_n;
+static double g_merr_nfv[3], g_merr_trv[3];
 static int g_keep_unrelated_params;	/* unrelated calibrations keep their kit */
 static int g_fillers;		/* run_once: parameters made before the set's */
 
@@ -175,7 +179,16 @@ static void run_once(cs_scenario *sc, int before, int after, int dk,
 		elog.count ? elog.msg[0] : "");
 	goto out;
     }
-    if (g_merr_nf > 0.0) {
+    if (g_merr_n > 0) {
+	if (vnacal_new_set_m_error(vnp, NULL, g_merr_n, g_merr_nfv,
+		    g_merr_trv) != 0 ||
+		vnacal_new_set_pvalue_limit(vnp, 1e-300) != 0) {
+	    out->rc = 2;
+	    snprintf(out->why, sizeof(out->why), "set_m_error: %.150s",
+		    elog.count ? elog.msg[0] : "");
+	    goto out;
+	}
+    } else if (g_merr_nf > 0.0) {
 	/* measurement-error model: the weights depend on the readings */
 	double nf = g_merr_nf, tr = g_merr_tr;
 	if (vnacal_new_set_m_error(vnp, NULL, 1, &nf, &tr) != 0 ||
@@ -483,6 +496,7 @@ static void run(int tier, long idx, vf_result *r)
 			"on, more reflects on port 1 than on port 2");
 	    }
 	    g_merr_nf = g_merr_tr = 0.0;
+    g_merr_n = 0;
 	}
 	break;
     }
@@ -674,6 +688,59 @@ static void run(int tier, long idx, vf_result *r)
 	    snprintf(what, sizeof(what), "three frequencies solved together "
 		    "vs frequency %g Hz solved alone", fv[k]);
 	    compare(r, "perfreq", tname, &A, &B, P, what);
+	}
+	if (noise > 0.0 && r->status == VF_OK) {
+	    /* the same with a measurement-error model that is given per
+	       calibration frequency and differs between them: the weights
+	       of a frequency are those declared for it */
+	    /* (the floor well above the inconsistency of the data, so that
+	       no frequency is rejected by the p-value test) */
+	    const double nfv[3] = { 3.0 * noise, 6.0 * noise, 12.0 * noise };
+	    static const double trv[3] = { 1e-2, 3e-3, 1e-3 };
+	    static applied_t single[3];
+	    int all_ok = 1;
+	    /* frequencies are solved independently: when each of them
+	       solves alone, the three solve together, with the same result */
+	    for (int k = 0; k < 3; ++k) {
+		memset(&var, 0, sizeof(var));
+		cs_make_vna_f(&var.vna, types[t], rows, cols, 1, &fv[k], 2);
+		cs_recipe(&var, recipe, 0, 0, 0, 1);
+		for (int q = 0; q < var.nparam; ++q)
+		    if (var.param[q].kind == CSP_VECTOR) {
+			var.param[q].lo = 0.9 * fv[0] / fv[k];
+			var.param[q].hi = 1.1 * fv[2] / fv[k];
+		    }
+		var.noise = noise;
+		g_merr_n = 1;
+		g_merr_nfv[0] = nfv[k];
+		g_merr_trv[0] = trv[k];
+		run_once(&var, 0, 0, 1, &single[k], r);
+		if (single[k].rc != 0)
+		    all_ok = 0;	/* e.g. exactly determined: p-value 0 */
+	    }
+	    if (all_ok) {
+		g_merr_n = 3;
+		memcpy(g_merr_nfv, nfv, sizeof(nfv));
+		memcpy(g_merr_trv, trv, sizeof(trv));
+		run_once(&all, 0, 0, 1, &whole, r);
+		for (int k = 0; k < 3 && r->status == VF_OK; ++k) {
+		    memset(&A, 0, sizeof(A));
+		    A.nf = 1;
+		    A.rc = whole.rc;
+		    memcpy(A.why, whole.why, sizeof(A.why));
+		    memcpy(A.S[0], whole.S[k], sizeof(A.S[0]));
+		    snprintf(what, sizeof(what), "three frequencies solved "
+			    "together with per-frequency noise declarations "
+			    "vs frequency %g Hz solved alone with its own",
+			    fv[k]);
+		    compare(r, "perfreq-weighted", tname, &A, &single[k], P,
+			    what);
+		}
+	    } else {
+		vf_note("weighted per-frequency relation not applicable: a "
+			"single frequency does not solve with the model");
+	    }
+	    g_merr_n = 0;
 	}
 	cs_vector_wiggle = 0.0;
 	break;
